@@ -14,6 +14,9 @@ CHECKS = {
  'C02': dict(level='exploration', design='3/C02', technique='runtime monitor over all verifying entry points: observed verdict vs reference rule (GEN-01/03/04, refusal above 255) on generated signatures x hash/level variants',
    text='Honest reference-built signatures are verified through KSI_SignatureVerifier_verify, KSI_Signature_verifyWithPolicy (with and without caller context), KSI_verifyDataHash and KSI_Signature_verifyDocument under the six verifying policies with document hashes that are equal / differ in one bit (all bits for a subset) / carry another algorithm id, and levels around the first-link correction and the 255/2^32/2^64 boundaries; the verdict must be the documented GEN code, a refusal, or exactly the verdict obtained without a document.',
    note='Trusts vlib/gen.py and refksi; trust anchors for key/calendar/publications-file policies are not supplied here, so their matching-document baseline is NA (C04 covers anchors).'),
+ 'C07': dict(level='exploration', design='3/C07', technique='runtime monitor at the transport boundary: simulated HTTP/TCP transports + reference aggregator; request bytes checked, success allowed only for honest replies and the returned signature compared with the reference',
+   text='The real blocking and asynchronous signing paths run over a fake libcurl and wrapped socket calls; a reference aggregator (python) parses every request at the transport boundary (hash, level, login id, MAC recomputed) and answers either honestly (random tree shapes, chunked delivery) or with one of 21 deviations (foreign/stale id, other hash, other level, non-zero status, error PDU, truncated/garbled, bad MAC, other MAC algorithm/key, other PDU version, inconsistent chains, transport failures). Success is accepted only for honest behaviours and then the returned signature must be byte-identical to the one the reference issued and internally consistent; SHA-1 input must be refused before anything is sent.',
+   note='Trusts the simulated transports (harness/ksi_exec_net.c), the reference aggregator (vlib/refserver.py, vlib/gen.py) and refksi. Block-signer signing is exercised under C16.'),
 }
 NOT_YET = 'check not built yet in this session (planned in DESIGN.md section 3)'
 
